@@ -22,7 +22,7 @@ ASSUMPTIONS = ["the pessimistic set is taken as observed (its correctness is C11
                "bands: rectangles 1e-12 rel for domination (closed form), ellipsoids 2e-6+1e-4*mag"]
 N = {"quick": 190, "thorough": 6000}
 VARS = ["PaVeBa", "PaVeBaGP-IH", "PaVeBaGP-DE", "PartialGP-rect", "PartialGP-ell", "VOGP", "EpsilonPAL", "Auer", "Auer-emp", "VOGP", "EpsilonPAL"]
-REQUIRE = {"quick": {"must_discard": 300, "must_keep": 1500, "runs": 150, "vogp_ad_runs": 10, "frozen_witness_scenario_reached": 2, "auer_certified_only_by_per_objective_sum": 10,
+REQUIRE = {"quick": {"must_discard": 300, "must_keep": 1500, "runs": 150, "vogp_ad_runs": 10, "frozen_witness_scenario_reached": 2, "frozen_witness_bandit_scenario_reached": 1, "auer_certified_only_by_per_objective_sum": 10,
                      **{f"must_discard::{v}": 5 for v in set(VARS)}, **{f"must_keep::{v}": 20 for v in set(VARS)}}}
 TIMEOUT = {"quick": 1500, "thorough": 7200}
 
@@ -99,7 +99,73 @@ def directed_auer_emp(mon, rng):
             runchecks.check_discard(mon, tr, st)
 
 
+def directed_frozen_witness_bandit(mon):
+    """the same stale-witness scenario for the bandit PaVeBa (ball regions of the algorithm's own radius r_t): centres for
+    rounds 1 and 2 are found by a seeded random search against the oracle truth table, then realised by scripted observations."""
+    from vmon.oracles import geometry as G
+
+    rng = np.random.default_rng(2021)
+    e = 0.1
+    mu = np.array([[0.0, 0.0], [-0.6 * e, -0.6 * e], [0.5 * e, -0.3 * e]])
+    case, order = runs.make_case(rng, "PaVeBa", m=2, K=3, mu=mu, eps=e, scale=0.3, cone_families=["orthant"], contraction=1.0, noise_var=0.01)
+    # radius of rounds 1, 2 at contraction 1, then pick the contraction that makes r1 = 0.3 eps
+    alg0, _ = runs.build_algorithm(case, order)
+    alg0.round = 1
+    raw1 = float(alg0.compute_radius())
+    alg0.round = 2
+    raw2 = float(alg0.compute_radius())
+    c = raw1 / (0.3 * e)
+    r1, r2 = raw1 / c, raw2 / c
+    W = case["W"]
+    I2 = np.eye(2)
+    sl = np.asarray(alg0.cone_alpha_eps, float)
+    tau = 1e-3 * e
+
+    def dom(ci, ri, cj, rj):  # is ball i dominated by ball j (zero slack)
+        return G.ell_dominated_margin(W, ci, I2, ri, cj, I2, rj, 0.0)[0]
+
+    def cov(ci, ri, cj, rj):  # can ball j cover ball i by the eps-slack
+        lo, hi = G.ell_covered_margin(W, ci, I2, ri, cj, I2, rj, sl)
+        return lo if lo > 0 else hi
+
+    found = None
+    for _ in range(20000):
+        c0 = np.zeros(2)
+        c1a = -rng.uniform(0.3, 0.6, size=2) * e
+        c2a = c1a + rng.uniform(-1.0, 1.5, size=2) * e
+        c1b = c1a - rng.uniform(0.0, 0.4, size=2) * e
+        c2b = c2a + rng.uniform(-0.2, 0.2, size=2) * e
+        B = {0: c0, 1: c1a, 2: c2a}
+        ok = all(dom(B[i], r1, B[j], r1) < -tau for i in B for j in B if i != j)  # nobody discarded in round 1
+        ok = ok and cov(B[0], r1, B[1], r1) < -tau and cov(B[0], r1, B[2], r1) < -tau  # 0 admitted
+        ok = ok and cov(B[1], r1, B[2], r1) > tau  # 1 held by 2
+        ok = ok and cov(B[1], r1, B[0], r1) < -tau and cov(B[2], r1, B[0], r1) < -tau  # 0 not useful
+        ok = ok and dom(c1b, r2, c0, r1) > tau  # round 2: the stale ball of 0 dominates the refreshed ball of 1
+        ok = ok and dom(c1b, r2, c2b, r2) < -tau and dom(c2b, r2, c1b, r2) < -tau  # no active certificate
+        if ok:
+            found = ([c0, c1a, c2a], [c0, c1b, c2b])
+            break
+    if found is None:
+        mon.count("bandit_scenario_search_failed")
+        return
+    case["contraction"] = float(c)
+    case["script"] = [[v.tolist() for v in found[0]], [v.tolist() for v in found[1]]]
+    case["obs_mode"] = "scripted"
+    case["max_rounds"] = 3
+    tr = runs.run_case(case, order, mon, max_extra_steps=0)
+    mon.count("runs")
+    for st in tr.steps:
+        if st["crash"] is None:
+            runchecks.check_discard(mon, tr, st)
+    if len(tr.steps) >= 2:
+        st = tr.steps[1]
+        if 0 in (st["pre"][1] or set()) and 0 not in (st["pre"][2] or set()) and 1 in st["pre"][0]:
+            mon.count("frozen_witness_bandit_scenario_reached")
+
+
 def shard(mon, tier, rng, shard_no, nshards):
+    if shard_no == 1 % nshards:
+        directed_frozen_witness_bandit(mon)
     for _ in range(1 if tier == "quick" else 6):
         ad_run(mon, rng)
     for _ in range(4 if tier == "quick" else 40):
